@@ -412,9 +412,44 @@ def parse_kani_result_file(path):
     }
 
 
+
+# ----------------------------------------------------------------------------------------------
+# A budget of concurrently running CBMC processes shared by every Kani job of one check: several multi-GB CBMCs
+# started at once by independent jobs exhausted the machine's memory in the thorough tier (each passes alone).
+# ----------------------------------------------------------------------------------------------
+import threading
+_SLOT_COND = threading.Condition()
+_SLOTS_FREE = [None]
+
+
+def _slot_budget(tier):
+    return int(os.environ.get("VERIF_CBMC_BUDGET", "18" if tier == "quick" else "10"))
+
+
+class cbmc_slots:
+    def __init__(self, n, tier):
+        self.n = max(1, min(n, _slot_budget(tier)))
+        self.tier = tier
+
+    def __enter__(self):
+        with _SLOT_COND:
+            if _SLOTS_FREE[0] is None:
+                _SLOTS_FREE[0] = _slot_budget(self.tier)
+            while _SLOTS_FREE[0] < self.n:
+                _SLOT_COND.wait()
+            _SLOTS_FREE[0] -= self.n
+        return self.n
+
+    def __exit__(self, *a):
+        with _SLOT_COND:
+            _SLOTS_FREE[0] += self.n
+            _SLOT_COND.notify_all()
+        return False
+
+
 def kani_group(pkg, obs, flags, stage_dir, scratch, tier):
     """Run all harnesses (obligation dicts with 'harness') of one package; fill in results."""
-    jobs = min(len(obs), int(os.environ.get("VERIF_KANI_JOBS", "12")))
+    jobs = min(len(obs), int(os.environ.get("VERIF_KANI_JOBS", "12")), _slot_budget(tier))
     timeout_each = max(o.get("timeout", 1500 if tier == "quick" else 7200) for o in obs)
     tdir = os.path.join(scratch, "target-" + pkg)
     cmd = ["cargo", "kani", "-p", pkg, "--target-dir", tdir, "--output-format", "terse", "-j", str(jobs),
@@ -428,7 +463,8 @@ def kani_group(pkg, obs, flags, stage_dir, scratch, tier):
     total_to = 600 + timeout_each * (1 + (len(obs) + jobs - 1) // jobs)
     log(f"[kani] {pkg}: {len(obs)} harnesses, -j {jobs}")
     # address-space cap per process (inherited by every cbmc): one exploding harness must not take the machine down
-    rc, out, err, secs, to = run(cmd, cwd=stage_dir, timeout=total_to, mem_kb=int(os.environ.get("VERIF_KANI_MEM_KB", str(40 * 1024 * 1024))))
+    with cbmc_slots(jobs, tier):
+        rc, out, err, secs, to = run(cmd, cwd=stage_dir, timeout=total_to, mem_kb=int(os.environ.get("VERIF_KANI_MEM_KB", str(40 * 1024 * 1024))))
     rdir = os.path.join(tdir, "result_output_dir")
     build_failed = ("error: could not compile" in err) or ("error[E" in err and "Checking harness" not in out)
     if build_failed:
@@ -522,7 +558,7 @@ def run_kani_file(unit, spec, stage_dir, scratch, tier, prop):
     open(f, "w").write(text)
     wanted = [h["name"] for h in spec.get("harness", []) if tier_ok(h.get("tier", "quick"), tier)
               and prop in h.get("serves", spec.get("serves", []))]
-    jobs = max(1, min(len(wanted), int(os.environ.get("VERIF_KANI_JOBS", "12"))))
+    jobs = max(1, min(len(wanted), int(os.environ.get("VERIF_KANI_JOBS", "12")), 6, _slot_budget(tier)))
     h_timeout = spec.get("timeout", 600) * (1 if tier == "quick" else 3)
     cmd = ["kani", f, "--harness-timeout", f"{h_timeout}s", "-Z", "unstable-options",
            "-j", str(jobs), "--output-format", "terse", "--output-into-files"]
@@ -537,8 +573,9 @@ def run_kani_file(unit, spec, stage_dir, scratch, tier, prop):
             if fn.split("::")[-1] in wanted:
                 os.remove(os.path.join(rdir, fn))
     rounds = (len(wanted) + jobs - 1) // jobs
-    rc, out, err, secs, to = run(cmd, cwd=wd, timeout=h_timeout * (rounds + 1) + 300, env=kenv,
-                                 mem_kb=int(os.environ.get("VERIF_KANI_MEM_KB", str(40 * 1024 * 1024))))
+    with cbmc_slots(jobs, tier):
+        rc, out, err, secs, to = run(cmd, cwd=wd, timeout=h_timeout * (rounds + 1) + 300, env=kenv,
+                                     mem_kb=int(os.environ.get("VERIF_KANI_MEM_KB", str(40 * 1024 * 1024))))
     if "error: could not compile" in err or "error[E" in err or (rc != 0 and "Checking harness" not in out):
         raise Undecided(f"kani-file {name}: build failed:\n{(out + err)[-2500:]}")
     res = {}
